@@ -35,6 +35,7 @@ func (vc *FuncVC) doBuiltin(st *State, fr *Frame, instr ssa.Instruction, cc *ssa
 		case *types.Basic:
 			w.declare("strlen", "(declare-fun strlen (Str) Int)")
 			st.assume(app(">=", app("strlen", x.T), "0"))
+			st.assume(eq(eq(app("strlen", x.T), "0"), eq(x.T, "str_empty"))) // only the empty string has length 0
 			set(V{app("strlen", x.T), SInt, types.Typ[types.Int]})
 		case *types.Chan:
 			set(st.freshV("chanlen", types.Typ[types.Int]))
@@ -60,8 +61,54 @@ func (vc *FuncVC) doBuiltin(st *State, fr *Frame, instr ssa.Instruction, cc *ssa
 		ch := args[0].(V)
 		vc.chanClose(st, fr, instr, cc.Args[0], ch, site)
 	case "copy":
-		vc.unsupportedf("builtin copy")
-		panic(abortPath{"copy"})
+		dstT, ok1 := cc.Args[0].Type().Underlying().(*types.Slice)
+		_, ok2 := cc.Args[1].Type().Underlying().(*types.Slice)
+		if !ok1 || !ok2 {
+			vc.unsupportedf("builtin copy from a string")
+			panic(abortPath{"copy"})
+		}
+		dst, src := args[0].(V), args[1].(V)
+		es := w.sortOf(dstT.Elem())
+		hn, hs := elemsHeap(es)
+		cur := st.heapGet(hn, hs)
+		n := ite(app("<=", app("slen", dst.T), app("slen", src.T)), app("slen", dst.T), app("slen", src.T))
+		na := st.fresh("copyarr", arraySort(SInt, es))
+		oldDst, oldSrc := sel(cur, app("sarr", dst.T)), sel(cur, app("sarr", src.T))
+		st.assume(fmt.Sprintf("(forall ((j Int)) (! (= (select %s j) (ite (and (<= (soff %s) j) (< j (+ (soff %s) %s))) (select %s (+ (soff %s) (- j (soff %s)))) (select %s j))) :pattern ((select %s j))))",
+			na, dst.T, dst.T, n, oldSrc, src.T, dst.T, oldDst, na))
+		st.heapSet(hn, hs, ite(eq(n, "0"), cur, sto(cur, app("sarr", dst.T), na)))
+		set(V{n, SInt, types.Typ[types.Int]})
+	case "min", "max":
+		// integers only (floating point min/max have NaN cases; strings are not modelled)
+		acc, ok := args[0].(V)
+		if !ok || acc.S != SInt {
+			vc.unsupportedf("builtin %s on %s", b.Name(), cc.Args[0].Type())
+			panic(abortPath{"builtin"})
+		}
+		op := "<="
+		if b.Name() == "max" {
+			op = ">="
+		}
+		t := acc.T
+		for _, a := range args[1:] {
+			t = ite(app(op, t, a.(V).T), t, a.(V).T)
+		}
+		set(V{t, SInt, cc.Args[0].Type()})
+	case "clear":
+		mt, isMap := cc.Args[0].Type().Underlying().(*types.Map)
+		if !isMap {
+			vc.unsupportedf("builtin clear on %s", cc.Args[0].Type())
+			panic(abortPath{"builtin"})
+		}
+		m := args[0].(V)
+		vc.checkMapWrite(st, fr, cc.Args[0], m, instr)
+		ks := w.sortOf(mt.Key())
+		dn, dso, _, _ := mapHeaps(w, mt)
+		dom := st.heapGet(dn, dso)
+		vc.declCard(ks)
+		empty := w.zero(arraySort(ks, SBool))
+		st.heapSet(dn, dso, ite(eq(m.T, "0"), dom, sto(dom, m.T, empty)))
+		st.assume(eq(app("card_"+sortName(ks), empty), "0"))
 	case "print", "println":
 	case "recover":
 		set(V{"nilI", SIface, nil})
@@ -128,7 +175,7 @@ func (vc *FuncVC) doAppend(st *State, fr *Frame, instr ssa.Instruction, cc *ssa.
 	vc.paths++
 	// monitor rule on append (ghost mirrors of accumulated slices)
 	for _, p := range []*State{st, s2} {
-		if len(p.frames) == 1 {
+		{
 			tn := callTargetName(cc)
 			if r := vc.findRule("call", tn, "builtin.append"); r != nil {
 				res := p.top().env[instr.(ssa.Value)]
@@ -165,11 +212,7 @@ func (vc *FuncVC) syncCall(st *State, fr *Frame, instr ssa.Instruction, callee *
 			return nil, false
 		}
 	}
-	inTop := len(st.frames) == 1
-	var rule *CallRule
-	if inTop {
-		rule = vc.findRule("call", name)
-	}
+	rule := vc.findRule("call", name)
 	if rule != nil {
 		vc.ruleRequires(st, rule, site, args)
 	}
@@ -398,13 +441,11 @@ func (vc *FuncVC) doSend(st *State, fr *Frame, in *ssa.Send) {
 	desc := describeValue(in.Chan)
 	key := vc.chanArr(st, "closed")
 	vc.nopanic(st, "send-on-closed", in, eq(sel(st.heap[key], ch.T), "0"))
-	if len(st.frames) == 1 {
-		if r := vc.findRule("send", desc); r != nil {
-			vc.ruleRequires(st, r, "send:"+desc, []any{x})
-			vc.ruleEffects(st, r, "send:"+desc, []any{x}, nil)
-		} else {
-			vc.addUnreachable(st, "unexpected-send", "unexpected-send:"+desc, nil)
-		}
+	if r := vc.findRule("send", desc); r != nil {
+		vc.ruleRequires(st, r, "send:"+desc, []any{x})
+		vc.ruleEffects(st, r, "send:"+desc, []any{x}, nil)
+	} else {
+		vc.addUnreachable(st, "unexpected-send", "unexpected-send:"+desc, nil)
 	}
 	st.event("send %s", desc)
 }
@@ -415,11 +456,9 @@ func (vc *FuncVC) chanClose(st *State, fr *Frame, instr ssa.Instruction, chv ssa
 	vc.nopanic(st, "close-of-closed-chan", instr, eq(sel(st.heap[key], ch.T), "0"))
 	st.heapSet(key, arraySort(SInt, SInt), sto(st.heap[key], ch.T, "1"))
 	desc := describeValue(chv)
-	if len(st.frames) == 1 {
-		if r := vc.findRule("close", desc); r != nil {
-			vc.ruleRequires(st, r, "close:"+desc, nil)
-			vc.ruleEffects(st, r, "close:"+desc, nil, nil)
-		}
+	if r := vc.findRule("close", desc); r != nil {
+		vc.ruleRequires(st, r, "close:"+desc, nil)
+		vc.ruleEffects(st, r, "close:"+desc, nil, nil)
 	}
 	st.event("close %s", desc)
 }
